@@ -1,3 +1,4 @@
+//verif:needs sip
 package main
 
 // Comparison of a decoded product Message with the abstract message it was
